@@ -117,3 +117,7 @@ def run(tier, V):
            'samples': [{'lines': c0['lines'][:4], 'keys': c0['keys']}]}
     assumptions = ['reference = model_vi (span semantics literal: exclusive unless the motion is one of f F t T e E %, line-wise for line motions / doubled operators)', 'left-to-right text; ^P ^R ^A ^K and keymaps in insert mode are outside the statement (program cut)']
     return cov, assumptions
+
+
+def REPLAY(w):
+    return run_case((build('asan'), w['index'], c17.Widths()))[:2]
